@@ -184,8 +184,17 @@ func intervalOf(v ssa.Value, facts []Fact, depth int) ival {
 		}
 	case *ssa.Phi:
 		first := true
+		induct := false
 		for i, e := range t.Edges {
 			pred := t.Block().Preds[i]
+			// counter induction: an edge that carries this very variable plus a non-negative constant cannot lower
+			// the lower bound the other edges establish (the upper bound is dropped)
+			if bo, ok := e.(*ssa.BinOp); ok && bo.Op == token.ADD && bo.X == ssa.Value(t) {
+				if k, ok := constIval(asConst(bo.Y)); ok && k.lo >= 0 {
+					induct = true
+					continue
+				}
+			}
 			ei := intervalOf(e, edgeFacts(pred, t.Block()), depth+1)
 			if first {
 				iv, first = ei, false
@@ -196,6 +205,12 @@ func intervalOf(v ssa.Value, facts []Fact, depth int) ival {
 			}
 			if !ei.hasHi || (iv.hasHi && ei.hi > iv.hi) {
 				iv.hi, iv.hasHi = ei.hi, ei.hasHi && iv.hasHi
+			}
+		}
+		if induct {
+			iv.hasHi = false
+			if first {
+				iv = ival{}
 			}
 		}
 	}
@@ -218,4 +233,9 @@ func sizeOfBasic(b *types.Basic) int {
 func provedNonNeg(v ssa.Value, at ssa.Instruction) (bool, ival) {
 	iv := intervalOf(v, domFacts(at.Block()), 0)
 	return iv.hasLo && iv.lo >= 0, iv
+}
+
+func asConst(v ssa.Value) *ssa.Const {
+	k, _ := v.(*ssa.Const)
+	return k
 }
